@@ -4,11 +4,21 @@ Line-protocol driver for the executable models: one line in, one line out.
 Unknown or malformed lines answer `bad-op` (never defaulted).
 -/
 import Pamiq.Model.ClockDriver
+import Pamiq.Model.ProtoDriver
+import Pamiq.Model.WebQDriver
+import Pamiq.Model.TreeDriver
+import Pamiq.Model.ModelsDriver
 open Pamiq
 
 structure DState where
   clock : Clock.Ctl := Clock.init ⟨0, 0, 0⟩ ⟨0, 0, 0⟩
   clockVariant : Bool := true
+  proto : Proto.St := {}
+  webq : WebQ.Q := { cap := 1 }
+  -- C12 Tree
+  tree : Tree.DSt := {}
+  -- C14 Models
+  models : Option Models.Sys := none
 
 def handle (st : DState) (line : String) : DState × String :=
   match (line.trimAscii.toString.splitOn " ").filter (· ≠ "") with
@@ -19,6 +29,20 @@ def handle (st : DState) (line : String) : DState × String :=
   | "clock" :: rest =>
     let (c, out) := Clock.drive st.clockVariant st.clock rest
     ({ st with clock := c }, out)
+  | "proto" :: rest =>
+    let (p, out) := Proto.drive st.proto rest
+    ({ st with proto := p }, out)
+  | "webq" :: rest =>
+    let (w, out) := WebQ.drive st.webq rest
+    ({ st with webq := w }, out)
+  -- C12 Tree
+  | "tree" :: rest =>
+    let (t, out) := Tree.drive st.tree rest
+    ({ st with tree := t }, out)
+  -- C14 Models
+  | "models" :: rest =>
+    let (m, out) := Models.drive st.models rest
+    ({ st with models := m }, out)
   | _ => (st, "bad-op")
 
 partial def loop (h : IO.FS.Stream) (out : IO.FS.Stream) (st : DState) : IO Unit := do
